@@ -536,7 +536,7 @@ class C06Engine(GenEngineBase):
         "stub": ["clang-format replaced by a failing fake on PATH under F3 faults"],
     }
     assumptions = [
-        "scope: histories x faults x (shipped + naming-stress programs); generated programs over every kind are not explored",
+        "scope: histories x faults x (shipped + naming-stress programs); seeded generated programs draw on ~30 operation kinds and are judged against the same request made alone; programs over every kind are not explored",
         "a reference to a name is accepted when the expression bound to it is tree-equivalent to the operand it stands for",
         "operator tables for ~40 kinds written from the dialect documentation; other kinds are counted as unknown, not flagged",
     ]
@@ -555,7 +555,7 @@ class C06Engine(GenEngineBase):
         cfg = dict(targets=["stablehlo", "xla_client", "xla_client", "stablehlo", "cpp", "python"], n_requests=24 if tier == "quick" else 40,
                    allow_faults=True, shared=True, p_shared_choices=[0.3, 0.6, 0.9],
                    allow_env=["clang_absent", "clang_exit1", "clang_killed", "clang_noisy", "clang_noisy", "clang_partial", "clang_partial", "tmpdir_unwritable"] if faulty else None,
-                   reprint_targets=["stablehlo", "python", "cpp"], generated_programs=0.35, races=0.5, scenarios=0.4)
+                   reprint_targets=["stablehlo", "python", "cpp"], generated_programs=0.35, races=0.5, scenarios=0.4, variant_pairs=0.3)
         return {"seed": seed, "hashseed": None, "history": H.gen_history(seed, self.universe, cfg)}
 
     def run_case(self, case):
